@@ -13,10 +13,13 @@ from .model import AnchorMissing, ClassInfo, NotConst, Repo, attr_chain, norm, s
 def word_accessors(repo: Repo, ci: ClassInfo) -> Dict[str, List[str]]:
     """word attribute -> property names whose getter reads and whose setter writes only self.<word>."""
     out: Dict[str, List[str]] = {}
+    from . import inline
     for name, g in ci.getters.items():
         s = ci.setters.get(name)
         if s is None:
             continue
+        # private helpers (`self._swap(shift, old, new)`, `self._extract(shift, mask)`) are read through
+        g, s = inline.normalize(repo, ci, g), inline.normalize(repo, ci, s)
         written = set()
         for n in walk_no_nested(s):
             tgt = None
@@ -52,24 +55,29 @@ def check_accessors(repo: Repo, rep, P: str, ci: ClassInfo, word: str, width: in
     old = BV.term("old", width=width)
     fsets: Dict[str, List[int]] = {}
     getters = {}
+    from . import inline
+    undecided = False
     for name in names:
-        g = ci.getters[name]
+        g = inline.normalize(repo, ci, ci.getters[name])
         try:
             ev = BitEval(repo, ci, {key: old})
             gv = ev.run(stmts_of(g))
         except Unsupported as e:
             rep.inconclusive(f"{P}.R3", f"{construct_base}.{name}", norm(g.body[-1]),
                              f"getter not evaluable in the bit domain: {e}", f"{ci.file.rel}:{g.lineno}")
+            undecided = True
             continue
         if gv is None:
             rep.inconclusive(f"{P}.R3", f"{construct_base}.{name}", "", "getter returns nothing",
                              f"{ci.file.rel}:{g.lineno}")
+            undecided = True
             continue
         F = sorted({l[2] for l in gv.lanes if isinstance(l, tuple) and l[0] == "s" and l[1] == "old"})
         tops = [l for l in gv.lanes if bits.is_top(l)]
         if tops or not F:
             rep.inconclusive(f"{P}.R3", f"{construct_base}.{name}", norm(g.body[-1]),
                              "getter is not a pure bit extraction of the word", f"{ci.file.rel}:{g.lineno}")
+            undecided = True
             continue
         # getter must be a contiguous extraction old[s..s+k-1] placed at lanes 0..k-1
         ok_shape = all(gv.lanes[i] == bits.S("old", F[0] + i) for i in range(len(F))) and \
@@ -77,6 +85,7 @@ def check_accessors(repo: Repo, rep, P: str, ci: ClassInfo, word: str, width: in
         if not ok_shape:
             rep.inconclusive(f"{P}.R3", f"{construct_base}.{name}", norm(g.body[-1]),
                              "getter does not extract a contiguous field", f"{ci.file.rel}:{g.lineno}")
+            undecided = True
             continue
         fsets[name] = F
         getters[name] = g
@@ -94,7 +103,10 @@ def check_accessors(repo: Repo, rep, P: str, ci: ClassInfo, word: str, width: in
     if expected_fields is not None:
         got = {(F[0], len(F)): n for n, F in fsets.items()}
         for k, nm in expected_fields.items():
-            if k not in got:
+            if k not in got and undecided:
+                rep.inconclusive(f"{P}.R3c", construct_base, f"field start={k[0]} length={k[1]} ({nm})",
+                                 "an accessor could not be evaluated, so the specified sub-field cannot be matched", f"{ci.file.rel}:{ci.node.lineno}")
+            elif k not in got:
                 rep.violation(f"{P}.R3c", construct_base, f"field start={k[0]} length={k[1]} ({nm})",
                               f"specified sub-field {nm} (bits {k[0]}..{k[0] + k[1] - 1}) has no accessor reading exactly those bits; "
                               f"accessors read {sorted(got)}", f"{ci.file.rel}:{ci.node.lineno}")
@@ -107,7 +119,7 @@ def check_accessors(repo: Repo, rep, P: str, ci: ClassInfo, word: str, width: in
                               f"{ci.file.rel}:{getters[n].lineno}")
     # (a), (b) per setter
     for name in allnames:
-        s = ci.setters[name]
+        s = inline.normalize(repo, ci, ci.setters[name])
         params = [a.arg for a in s.args.args if a.arg != "self"]
         if len(params) != 1:
             rep.inconclusive(f"{P}.R3", f"{construct_base}.{name}", "", "setter signature", f"{ci.file.rel}:{s.lineno}")
